@@ -110,7 +110,7 @@ PROPS['C06'] = dict(
     level_text='bounded stand-in: for each listed text template the harness covers every value of every numeric field and a rejection at every conversion point after every amount of partial progress; on Err the observable parser state (hit objects, last-object marker, state-held path buffer, pending control-point slots and group time) equals the state before the line',
     level_note='assumed: std text->number conversion (replaced by nondeterministic results), memchr_aligned == naive search; text shapes outside the templates are not decided; flush_pending_points is used through its Verus-proved contract',
     verus=[], kani=['support.kc', 'ho_lines.kc', 'tp_lines.kc', 'c11_sections.kc'],
-    only_prefix=['ho_path_', 'ho_line_', 'tp_line_', 'c11_difficulty_', 'c11_general_', 'c11_event_', 'c11_color_'],
+    only_prefix=['ho_path_', 'ho_line_', 'ho_slider_line', 'tp_line_', 'c11_difficulty_', 'c11_general_', 'c11_event_', 'c11_color_'],
     kani_functions=['src/section/hit_objects/decode.rs :: impl HitObjectsState :: fn convert_path_str / fn convert_points / fn point_split',
                     'src/section/hit_objects/decode.rs :: impl DecodeBeatmap for HitObjects :: fn parse_hit_objects',
                     'src/section/timing_points/decode.rs :: impl DecodeBeatmap for TimingPoints :: fn parse_timing_points'],
@@ -182,7 +182,7 @@ PROPS['C14'] = dict(
     level_note='assumed: std text->number conversion replaced by token-deterministic nondeterministic results; in line harnesses convert_sound_type is replaced by a marker (the real one is the Verus obligation); text shapes outside the templates, PathType letters beyond B/L/P in templates, collinear-perfect-curve downgrade and duplicate-point splitting values are not decided',
     verus=[dict(unit='hs', tier='quick')],
     kani=['support.kc', 'hit_samples.kc', 'ho_lines.kc'],
-    only_prefix=['hs_', 'ho_line_', 'ho_path_one', 'ho_path_two', 'ho_slider_'],
+    only_prefix=['hs_', 'ho_line_', 'ho_path_one', 'ho_path_two', 'ho_slider_'],  # ho_slider_line_fields is quick; the two path-bearing slider templates are optional thorough
     kani_functions=['src/section/hit_objects/hit_samples.rs :: impl HitSampleInfo :: fn new', 'src/section/hit_objects/hit_samples.rs :: impl From<&[HitSampleInfo]> for HitSoundType',
                     'src/section/hit_objects/hit_samples.rs :: impl TryFrom<i32> for SampleBank', 'src/section/hit_objects/decode.rs :: impl DecodeBeatmap for HitObjects :: fn parse_hit_objects',
                     'src/section/hit_objects/decode.rs :: impl HitObjectsState :: fn convert_path_str / convert_points / point_split'],
